@@ -151,7 +151,8 @@ pub fn gen_case(t: &mut Tape, allow_disabled_cfg: bool) -> Case {
                 ref_self_only: true,
                 patterns: false,
                 default_bodies: false,
-                assoc_types: false,
+                // associated types between the methods: a method's attributes are its own, not its neighbour's
+                assoc_types: true,
                 other_items: false,
                 unsafety: false,
                 trait_attrs: false,
